@@ -3,13 +3,16 @@
 usage: tools/keep_seed.py C01 a "caught by C01 quick (bucket ...)" [missed-note]"""
 import json, os, shutil, sys
 prop, x, verdict = sys.argv[1], sys.argv[2], sys.argv[3]
-src = "/tmp/seed/%s/out/%s" % (prop, x)
+root = os.environ.get("SEED_ROOT", "/tmp/seed")
+src = "%s/%s/out/%s" % (root, prop, x)
+if root != "/tmp/seed":
+    x = {"a": "c", "b": "d"}[x]  # second-round changes are kept as <prop>-c / <prop>-d
 dst = "/verif/seeded/%s-%s" % (prop, x)
 os.makedirs(dst, exist_ok=True)
 for f in ("patch.diff", "demo.py"):
     shutil.copy(os.path.join(src, f), os.path.join(dst, f))
 m = json.load(open(os.path.join(src, "meta.json")))
-log = "/tmp/seedlogs/suite-%s-%s.log" % (prop, x)
+log = "/tmp/seedlogs/suite%s-%s-%s.log" % ("2" if root != "/tmp/seed" else "", prop, sys.argv[2])
 mine = []
 if os.path.exists(log):
     mine = [l.strip() for l in open(log) if l.startswith("[")]
